@@ -1,2 +1,19 @@
+import FoxModel.Props.C01Full
+/-
+  Property C07 — routing depends only on the registered set, not on its history.
+-/
 namespace Fox.C07
+open Fox Fox.Model Fox.Spec Fox.C02
+
+/-- **history independence**: two histories (of any length, with any updates, deletions, truncations and re-insertions)
+    after which a method holds the same stored patterns route every request of that method identically — same route, same
+    parameters, same trailing-slash outcome. (Corollary of `lookup = specification`: the specification only reads the
+    stored patterns.) -/
+theorem history_independent (h₁ h₂ : List Op) (hv₁ : ∀ op ∈ h₁, op.valid = true) (hv₂ : ∀ op ∈ h₂, op.valid = true)
+    (m hostPort path : Bytes) (hn : noDbl path = true) (hs : SLASH ∉ stripHostPort hostPort)
+    (hsame : sufsOfMethod (runModel newTree h₁).1.roots m = sufsOfMethod (runModel newTree h₂).1.roots m) :
+    lookup (runModel newTree h₁).1.roots m hostPort path = lookup (runModel newTree h₂).1.roots m hostPort path := by
+  rw [C01.routing_correct_on_every_reachable_state h₁ hv₁ m hostPort path hn hs,
+      C01.routing_correct_on_every_reachable_state h₂ hv₂ m hostPort path hn hs, hsame]
+
 end Fox.C07
